@@ -22,6 +22,7 @@ import Golib.Queue.Fair
 import Golib.Queue.Timed
 import Golib.Queue.Findings
 import Golib.Queue.Composite
+import Golib.Queue.Fixed
 import Golib.Conc.Callback
 import Golib.Conc.SeqSpec
 
@@ -249,6 +250,25 @@ theorem double_get_serves_second_iff (d : DQ) (op : DOp) (hop : op = .get ∨ op
 
 example : (timedGetQ 100 ⟨[], 2⟩ [⟨[], 40⟩, ⟨[.put 7], 80⟩, ⟨[], 120⟩]).2.1 = some (.got 7) := by decide
 example : (timedGetQ 100 ⟨[], 2⟩ [⟨[], 40⟩, ⟨[.put 7, .get], 80⟩, ⟨[], 120⟩]).2.1 = some (.timedOut 120) := by decide
+
+/-! ### with the proposed repair (proposed/C11/fix-KF-nil-element-swallowed.diff) the exceptions disappear -/
+
+/-- the repaired timed get hands a nil element out like any other: conservation without a `swallowed`
+    term, for all elements and histories (`runF` = the model with the repaired GetTimeout) -/
+theorem conservation_repaired (q : Q) (ops : List Op) :
+    (q.items ++ acceptedOf (runF q ops).2.2).Perm
+      (deliveredOf (runF q ops).2.2 ++ overflowedOf (runF q ops).2.2 ++ clearedOf (runF q ops).2.2 ++
+        (runF q ops).1.items) :=
+  conservationF q ops
+
+theorem fifo_repaired (q : Q) (ops : List Op) :
+    q.items ++ acceptedOf (runF q ops).2.2 = leftOf (runF q ops).2.2 ++ (runF q ops).1.items :=
+  runF_fifo q ops
+
+/-- … and the double queue's timed get serves the second queue only if the first is empty -/
+theorem double_priority_timed_repaired (d : DQ) (k : Nat) (x : Nat)
+    (h : (2, Ev.delivered x) ∈ (dstepF d (.getTimeout k)).2.2) : d.q1.items = [] :=
+  Queue.double_priority_timed_fixed d k x h
 
 /-! ### the double queue's composite operations (Size, Clear over two lists) under the outer lock -/
 
